@@ -142,6 +142,7 @@ namespace DX
     simpa [tokOK] using this
   · intro h; exact hyg_absPath _ (by simp [h])
 @[simp] theorem hyg_genAttr' (xs : List String) : Hyg (genAttr xs) ↔ True := iff_true_intro (hyg_genAttr xs)
+@[simp] theorem hyg_allowUserLints : Hyg allowUserLints ↔ True := iff_true_intro (hyg_genAttr _)
 @[simp] theorem hyg_nil' : Hyg [] ↔ True := iff_true_intro Hyg.nil
 
 theorem hyg_kindPath (k : Kind) : Hyg k.path := by
@@ -170,7 +171,7 @@ theorem hyg_withRef {ts : GToks} {r : Bool} : Hyg (withRef ts r) ↔ Hyg ts := b
 /-- unfold the template, split it into its pieces, decide the literal tokens by evaluation -/
 macro "hyg_simp" "[" ts:Lean.Parser.Tactic.simpLemma,* "]" : tactic =>
   `(tactic| simp (config := { decide := true }) only [implItem, autoDerived, thisTyToks, ufcs, memberOf, hyg_withRef, ↓reduceIte, Bool.false_eq_true, hyg_gapp, hyg_gcons, hyg_cons,
-      hyg_append, hyg_paren, hyg_brace, hyg_angle, hyg_U', hyg_absPath', hyg_genAttr', hyg_nil', tokOK_u, tokOK_fnM, tokOK_typeM,
+      hyg_append, hyg_paren, hyg_brace, hyg_angle, hyg_U', hyg_absPath', hyg_genAttr', hyg_allowUserLints, hyg_nil', tokOK_u, tokOK_fnM, tokOK_typeM,
       tokOK_pathM, tokOK_bindM, tokOK_idxLit, and_true, true_and,
       and_self, false_imp_iff, imp_self, forall_const, hyg_kindPath, $ts,*])
 
